@@ -831,6 +831,58 @@ U_TGROW = Unit(P + '/taper1-growth', ['taper1'], t_taper1_growth, SCH,
                          Canary('taper1-one-piece-tripled', 'taper1', _TaperTriple, [P + '/taper1[growth]/', P + '.taper1.growth'])])
 
 
+# ================================================================ taper1 / taper2: what the preamble leaves in minl
+def t_taper_preamble(eng):
+    """Frame-style obligations on the text of the preamble (everything before `minc = ...`): the smallest piece length
+    `minl` starts as l / npieces, is clamped from below to the effective minimum (`if minl < min_t: minl = min_t`), and
+    every later assignment can only raise it (`if X > minl: minl = X`); `eps` is a tenth of it.  Consequence used by
+    the loop units: after the preamble  minl >= max(2.5 r, minimum)  and  minl * npieces >= l."""
+    which = eng.choose(2)
+    q = ['taper1', 'taper2'][which]
+    n_ = P + '/' + q + '[preamble]/'
+    f = eng.get_fnode(q)
+    from pyvc.source import find_stmt
+    first = find_stmt(f, lambda x: isinstance(x, ast.Assign) and ast.unparse(x.targets[0]) == 'minc' and x in f.body)
+    pre = f.body[:f.body.index(first)]
+    order = [x for st in pre for x in ast.walk(st)]
+    assigns = [x for x in order if isinstance(x, ast.Assign) and any(ast.unparse(t) == 'minl' for t in x.targets)]
+    eng.oblige(n_ + 'minl-starts-as-l/npieces', bool(assigns) and ast.unparse(assigns[0].value).replace(' ', '') == 'l/npieces',
+               detail=ast.unparse(assigns[0]) if assigns else '')
+
+    def guard_of(a):
+        for x in order:
+            if isinstance(x, ast.If) and a in x.body and len(x.body) == 1 and isinstance(x.test, ast.Compare) and len(x.test.ops) == 1:
+                l_, r_ = ast.unparse(x.test.left), ast.unparse(x.test.comparators[0])
+                v = ast.unparse(a.value)
+                if (isinstance(x.test.ops[0], ast.Lt) and l_ == 'minl' and r_ == v) or \
+                        (isinstance(x.test.ops[0], ast.Gt) and r_ == 'minl' and l_ == v):
+                    return v
+        return None
+    guards = [guard_of(a) for a in assigns[1:]]
+    eng.oblige(n_ + 'every-later-assignment-to-minl-can-only-raise-it', all(g is not None for g in guards),
+               detail=str([ast.unparse(a) for a, g in zip(assigns[1:], guards) if g is None]))
+    eng.oblige(n_ + 'minl-is-clamped-to-the-effective-minimum-first', bool(guards) and guards[0] == 'min_t', detail=str(guards))
+    epsdef = [x for x in order if isinstance(x, ast.Assign) and ast.unparse(x.targets[0]) == 'eps']
+    eng.oblige(n_ + 'eps-is-a-tenth-of-minl', len(epsdef) == 1 and ast.unparse(epsdef[0].value).replace(' ', '') == 'minl/10')
+    eng.cover(q + '-preamble')
+
+
+class _MinlReplaced(ast.NodeTransformer):
+    """the raise after the max_t search becomes an unconditional choice that forgets the clamp"""
+
+    def visit_If(self, node):
+        self.generic_visit(node)
+        if ast.unparse(node.test).replace(' ', '') == 'nminl>minl':
+            return ast.parse('minl = max (nminl, l / npieces)').body[0]
+        return node
+
+
+U_TPRE = Unit(P + '/taper-preamble', ['taper1', 'taper2'], t_taper_preamble, SCH, kind='frame',
+              slices={'taper1': 'the statements before `minc = ...` (read, not executed)', 'taper2': 'the statements before `minc = ...` (read, not executed)'},
+              canaries=[Canary('taper2-minimum-forgotten-after-the-max-search', 'taper2', _MinlReplaced, [P + '/taper2[preamble]/']),
+                        Canary('taper1-minimum-forgotten-after-the-max-search', 'taper1', _MinlReplaced, [P + '/taper1[preamble]/'])])
+
+
 # ================================================================ taper1, other end: the mirror image
 def t_taper1_mirror(eng):
     """taper1 (..., end = 1): the pieces are those of taper1 (p2, p1, ..., end = 0) in reverse order with their end
@@ -918,4 +970,4 @@ U_TMIN = Unit(P + '/taper-effective-minimum', ['taper1', 'taper2'], t_taper_mini
               canaries=[Canary('taper1-minimum-replaces-the-radius-floor', 'taper1', _MinOr, [P + '/taper1[effective minimum]/']),
                         Canary('taper2-minimum-replaces-the-radius-floor', 'taper2', _MinOr, [P + '/taper2[effective minimum]/'])])
 
-UNITS = [U_SEG, U_EQ, U_CURVE, U_ARC, U_ROT, U_WT, U_CT, U_HELIX, U_TLOOP, U_TGROW, U_TMIRROR, U_TMIN]
+UNITS = [U_SEG, U_EQ, U_CURVE, U_ARC, U_ROT, U_WT, U_CT, U_HELIX, U_TLOOP, U_TPRE, U_TGROW, U_TMIRROR, U_TMIN]
